@@ -134,7 +134,7 @@ func build(p *prop, work string, tier string) (bins map[string]string, ok bool) 
 	targets := []target{{"props", []string{"test", "-c", "-tags", "verif", "-o", filepath.Join(work, "props.test"), "./props"}}}
 	needRace, needTool, needFuzz, need386 := false, false, false, false
 	for i := range p.jobs {
-		if p.jobs[i].arch == "386" && (tier == "thorough" || !p.jobs[i].thoroughOnly) {
+		if (p.jobs[i].arch == "386" || p.jobs[i].child386) && (tier == "thorough" || !p.jobs[i].thoroughOnly) {
 			need386 = true
 		}
 		if p.jobs[i].fuzz != "" && tier == "thorough" {
@@ -528,6 +528,10 @@ func runUnit(ctx context.Context, p *prop, j *job, shard, ti int, tier string, s
 		"VERIF_PROP="+p.id,
 		"VERIF_PLAN=", "VERIF_REPLAY=",
 	)
+	if j.child386 {
+		// fresh child processes are the 32-bit build (the race detector does not exist for 386)
+		cmd.Env = append(cmd.Env, "VERIF_SELF="+bins["props386"], "VERIF_SELF_RACE="+bins["props386"])
+	}
 	cmd.Env = append(cmd.Env, j.env...)
 	var buf bytes.Buffer
 	cmd.Stdout = &buf
